@@ -338,13 +338,148 @@ Definition read_property (i : input) (o o2 : out) : Prop :=
    /\ o_peers o2 = o_peers o /\ o_electrum o2 = o_electrum o /\ o_contracts o2 = o_contracts o
    /\ o_err o2 = o_err o).
 
+(* ---------- resolution HISTORIES on ONE Config object ----------
+   The Config is long-lived: a caller may have filled fields in before resolving (the flags of
+   cmd/flags.go are bound to its fields, tests assign them), and nothing stops a second
+   resolveNetworks / ReadConfig on it.  State = the resolvable fields.  Steps:
+   HNets f      resolveNetworks alone on flag set f;
+   HResolve f k the resolution stage of ReadConfig without viper: resolveNetworks, then (no error)
+                resolveContractsAddresses, resolvePeers(returned network), resolveElectrum (pick k):
+                every field already holding a value counts as explicit, as coded;
+   HRead i      ReadConfig (fresh viper instance, a new command whose flags are bound to THIS
+                Config, called directly on the parsed flag set).
+   As written, resolveNetworks assigns BOTH network fields unconditionally: a pre-populated or
+   earlier resolved network is overwritten (also on the error path: unknown/unknown). *)
+Record cfg := { c_eth : ethnet; c_btc : btcnet; c_peers : list str; c_electrum : str; c_contracts : list str }.
+Inductive hstep := HNets (f : flagset) | HResolve (f : flagset) (k : nat) | HRead (i : input).
+Record hobs := { h_net : net; h_err : err; h_cfg : cfg }.   (* returned network (NUnknown for HRead), error class, Config after *)
+
+Definition flags_of (s : hstep) : flagset := match s with HNets f | HResolve f _ => f | HRead i => i_flags i end.
+Definition flagged (s : hstep) : bool := match flags_of s with FNil => false | FSet _ _ _ => true end.
+Definition step_select (s : hstep) : net * bool :=
+  match flags_of s with FNil => (NUnknown, true) | FSet _ t d => select_network t d end.
+
+Definition with_values (c : cfg) (p : list str) (u : str) (cs : list str) : cfg :=
+  {| c_eth := c_eth c; c_btc := c_btc c; c_peers := p; c_electrum := u; c_contracts := cs |}.
+Definition set_nets (c : cfg) (n : net) : cfg :=
+  {| c_eth := net_eth n; c_btc := net_btc n; c_peers := c_peers c; c_electrum := c_electrum c; c_contracts := c_contracts c |}.
+Definition cfg_of (o : out) : cfg :=
+  {| c_eth := o_eth o; c_btc := o_btc o; c_peers := o_peers o; c_electrum := o_electrum o; c_contracts := o_contracts o |}.
+Definition out_of (o : hobs) : out :=
+  {| o_err := h_err o; o_refused := false; o_eth := c_eth (h_cfg o); o_btc := c_btc (h_cfg o);
+     o_peers := c_peers (h_cfg o); o_electrum := c_electrum (h_cfg o); o_contracts := c_contracts (h_cfg o) |}.
+
+Definition hstep_run (e : env) (c : cfg) (s : hstep) : hobs :=
+  let mk n er c' := {| h_net := n; h_err := er; h_cfg := c' |} in
+  match s with
+  | HNets _ =>
+      let '(n, er) := step_select s in
+      mk n (if er then EResolveNetworks else ENone) (set_nets c n)
+  | HResolve _ k =>
+      let '(n, er) := step_select s in
+      let c1 := set_nets c n in
+      if er then mk n EResolveNetworks c1 else
+      let cs := resolve_contracts (e_contracts e) (c_contracts c1) in
+      match resolve_peers e n (c_peers c1) with
+      | PErr => mk n EPeers (with_values c1 (c_peers c1) (c_electrum c1) cs)
+      | PPanic => mk n EPanicked (with_values c1 (c_peers c1) (c_electrum c1) cs)
+      | POk p =>
+          match resolve_electrum e k (c_btc c1) (c_electrum c1) with
+          | UErr => mk n EElectrum (with_values c1 p (c_electrum c1) cs)
+          | UPanic => mk n EPanicked (with_values c1 p (c_electrum c1) cs)
+          | UOk u => mk n ENone (with_values c1 p u cs)
+          end
+      end
+  | HRead i => let o := read_config i in mk NUnknown (o_err o) (cfg_of o)
+  end.
+
+Fixpoint run_hist (e : env) (c : cfg) (steps : list hstep) : list hobs :=
+  match steps with
+  | [] => []
+  | s :: rest => let o := hstep_run e c s in o :: run_hist e (h_cfg o) rest
+  end.
+
+(* the property for one step, on the OBSERVED Config before (pre) and after (o) the step *)
+Definition state_values_ok (e : env) (n : net) (pre post : cfg) : bool :=
+  peers_ok (c_peers pre) (c_peers post) (if has_defaults n then e_peers e n else None)
+  && electrum_ok (c_electrum pre) (c_electrum post) (if has_defaults n then e_urls e (net_btc n) else None)
+  && contracts_ok (c_contracts pre) (c_contracts post) (e_contracts e).
+Definition nets_stage (er : err) : bool :=
+  match er with ENone | EValidation | ELoadFile | EPeers | EElectrum => true | _ => false end.
+Definition hstep_ok (e : env) (pre : cfg) (s : hstep) (o : hobs) : bool :=
+  match s with
+  | HNets f | HResolve f _ =>
+      spec_nets f (Some (h_net o, err_eqb (h_err o) EResolveNetworks, c_eth (h_cfg o), c_btc (h_cfg o)))
+      && (if reached (h_err o) then state_values_ok e (h_net o) pre (h_cfg o) else true)
+  | HRead i =>
+      has_flags i
+      && (if reached (h_err o)
+          then existsb (fun n => nets_ok i n (out_of o) && values_ok i n (out_of o)) (candidates i)
+          else if nets_stage (h_err o)
+          then existsb (fun n => nets_ok i n (out_of o)) (candidates i)
+          else true)
+  end.
+Fixpoint hist_ok (e : env) (pre : cfg) (steps : list hstep) (obs : list hobs) : bool :=
+  match steps, obs with
+  | [], [] => true
+  | s :: steps', o :: obs' => hstep_ok e pre s o && hist_ok e (h_cfg o) steps' obs'
+  | _, _ => false
+  end.
+
+(* the same per-step property as a proposition (Props/C44.v: hstep_ok_sound) *)
+Definition hstep_prop (e : env) (pre : cfg) (s : hstep) (o : hobs) : Prop :=
+  match s with
+  | HNets f | HResolve f _ =>
+      c_eth (h_cfg o) = net_eth (h_net o) /\ c_btc (h_cfg o) = net_btc (h_net o) /\
+      (h_err o <> EResolveNetworks -> In (h_net o) (candidates_of f)) /\
+      (reached (h_err o) = true ->
+         peers_prop (c_peers pre) (c_peers (h_cfg o)) (if has_defaults (h_net o) then e_peers e (h_net o) else None) /\
+         electrum_prop (c_electrum pre) (c_electrum (h_cfg o))
+                       (if has_defaults (h_net o) then e_urls e (net_btc (h_net o)) else None) /\
+         contracts_prop (c_contracts pre) (c_contracts (h_cfg o)) (e_contracts e))
+  | HRead i =>
+      has_flags i = true /\
+      (nets_stage (h_err o) = true ->
+         exists n, In n (candidates i) /\ c_eth (h_cfg o) = net_eth n /\ c_btc (h_cfg o) = net_btc n /\
+         (reached (h_err o) = true ->
+            peers_prop (explicit i [] (i_peers i)) (c_peers (h_cfg o))
+                       (if has_defaults n then e_peers (i_env i) n else None) /\
+            electrum_prop (explicit i 0 (i_electrum i)) (c_electrum (h_cfg o))
+                          (if has_defaults n then e_urls (i_env i) (net_btc n) else None) /\
+            contracts_prop (map (explicit i 0) (i_contracts i)) (c_contracts (h_cfg o)) (e_contracts (i_env i))))
+  end.
+
+Definition cfg_eqb (a b : cfg) : bool :=
+  eth_eqb (c_eth a) (c_eth b) && btc_eqb (c_btc a) (c_btc b) && list_eqb (c_peers a) (c_peers b)
+  && N.eqb (c_electrum a) (c_electrum b) && list_eqb (c_contracts a) (c_contracts b).
+Definition hobs_eqb (a b : hobs) : bool :=
+  net_eqb (h_net a) (h_net b) && err_eqb (h_err a) (h_err b) && cfg_eqb (h_cfg a) (h_cfg b).
+Fixpoint hobs_list_eqb (a b : list hobs) : bool :=
+  match a, b with
+  | [], [] => true
+  | x :: a', y :: b' => hobs_eqb x y && hobs_list_eqb a' b'
+  | _, _ => false
+  end.
+(* a well-formed history case: every step has a flag set, ReadConfig steps are direct calls with
+   one source record per contract, the state lists one address per contract *)
+Definition hstep_wfb (e : env) (s : hstep) : bool :=
+  flagged s &&
+  match s with
+  | HRead i => negb (i_cobra i) && env_wfb (i_env i)
+               && Nat.eqb (length (i_contracts i)) (length (e_contracts (i_env i)))
+               && list_eqb (e_contracts (i_env i)) (e_contracts e)
+  | _ => true
+  end.
+
 (* ---------- cases ---------- *)
 Inductive case :=
 | CRead (i : input) (o : out) (n2 : net) (k2 : nat) (o2 : out)
     (* o: the Config after ReadConfig; o2: after running the resolve functions again with n2, k2 *)
 | CPeers (e : env) (n : net) (p : list str) (r r2 : pres)
 | CElectrum (e : env) (b : btcnet) (u : str) (k : nat) (r r2 : ures)
-| CNets (f : flagset) (r : option (net * bool * ethnet * btcnet)).
+| CNets (f : flagset) (r : option (net * bool * ethnet * btcnet))
+| CHist (e : env) (c0 : cfg) (steps : list hstep) (obs : list hobs).
+    (* obs: what was observed after each step on ONE Config that started as c0 *)
 
 Definition model_nets (f : flagset) : option (net * bool * ethnet * btcnet) :=
   match f with
@@ -380,14 +515,22 @@ Definition judge (c : case) : verdict :=
       | FNil => BadCase
       | _ => decide (spec_nets f r) (nets_res_eqb (model_nets f) r)
       end
+  | CHist e c0 steps obs =>
+      if negb (env_wfb e && forallb (hstep_wfb e) steps
+               && Nat.eqb (length (c_contracts c0)) (length (e_contracts e))
+               && Nat.eqb (length obs) (length steps))
+      then BadCase else
+      decide (hist_ok e c0 steps obs) (hobs_list_eqb (run_hist e c0 steps) obs)
   end.
 
 Inductive explained :=
-| XRead (o o2 : out) | XPeers (r : pres) | XElectrum (r : ures) | XNets (r : option (net * bool * ethnet * btcnet)).
+| XRead (o o2 : out) | XPeers (r : pres) | XElectrum (r : ures) | XNets (r : option (net * bool * ethnet * btcnet))
+| XHist (obs : list hobs).
 Definition explain (c : case) : explained :=
   match c with
   | CRead i o n2 k2 o2 => let m := read_config i in XRead m (re_resolve (i_env i) n2 k2 m)
   | CPeers e n p _ _ => XPeers (resolve_peers e n p)
   | CElectrum e b u k _ _ => XElectrum (resolve_electrum e k b u)
   | CNets f _ => XNets (model_nets f)
+  | CHist e c0 steps _ => XHist (run_hist e c0 steps)
   end.
